@@ -12,9 +12,11 @@ stale link) and whether a stale link exists initially.
 import copy
 import errno
 
+from twisted.internet import defer
 from twisted.python import lockfile
 
 from detsim import threads as T
+from detsim.clock import SimClock
 
 ID = "C50"
 ENGINE = "threads"
@@ -45,6 +47,13 @@ class World:
         self.broke_stale = 0
         self.esrch = {}        # pid -> the dead pid its latest kill(0) reported ESRCH for
         self.foreign_unlock = None  # (pid, owner): an unlock() removed a live owner's link
+        self.link_gen = 0      # bumped whenever the link is created or removed
+        self.saw_alive = {}    # pid -> the owner its latest kill(0) reported as running (lock() then returned False)
+
+    def stale_owner(self):
+        """The dead pid the link names, or None (no link / owner running)."""
+        v = self.links.get(NAME)
+        return int(v) if v is not None and int(v) not in self.alive else None
 
     def pid(self):
         t = self.sched.me()
@@ -58,6 +67,7 @@ class World:
             self.sim.event(self.pid(), "symlink", "EEXIST")
             raise OSError(errno.EEXIST, "File exists")
         self.links[filename] = value
+        self.link_gen += 1
         self.sim.event(self.pid(), "symlink", "ok")
 
     def readlink(self, filename):
@@ -94,6 +104,7 @@ class World:
                 # unlock() by a process that does not own the link (e.g. a forked child cleaning up an inherited lock object)
                 self.foreign_unlock = (me, owner)
         del self.links[filename]
+        self.link_gen += 1
 
     def kill(self, pid, sig):
         self.sched.point("kill")
@@ -101,6 +112,7 @@ class World:
             self.esrch[self.pid()] = pid
             self.sim.event(self.pid(), "kill", pid, "ESRCH")
             raise OSError(errno.ESRCH, "No such process")
+        self.saw_alive[self.pid()] = pid
         self.sim.event(self.pid(), "kill", pid, "alive")
 
 
@@ -116,13 +128,26 @@ class _OS:
         return getattr(os, n)
 
 
+STALE_BUDGET = 3  # consecutive lock() attempts of one waiter against an untouched stale link that may fail
+LONE_BUDGET = 3   # lock() attempts a persistent waiter gets once every other process has finished or died
+
+
 def run(sim):
     nproc = sim.draw_int(2, 4, "nproc")
     stale_initial = sim.draw_bool(0.5, "stale_initial")
-    deaths = sim.draw_bool(0.3, "deaths")
+    deaths = sim.draw_bool(0.35, "deaths")
     rounds = sim.draw_int(1, 3, "rounds")
     forks = sim.draw_bool(0.25, "forks")
-    sim.config = {"nproc": nproc, "stale_initial": stale_initial, "deaths": deaths, "rounds": rounds, "forks": forks}
+    # how each process waits for a lock it did not get (always with the SAME lock object): "bounded" = up to 6 attempts
+    # per round, then it gives the round up; "persistent" = it keeps calling lock() until it holds the lock;
+    # "deferred" = DeferredFilesystemLock.deferUntilLocked() polling once per interval on the process's own simulated
+    # clock.  The non-bounded styles are drawn in the runs in which a lock can go stale in mid-run (holder deaths):
+    # that is where "a waiter that has already failed against the live owner must still get the lock after the owner
+    # died" is decided; all other runs keep the bounded style.
+    styles = ["bounded"] * nproc
+    if deaths:
+        styles = [sim.draw_weighted([("bounded", 2), ("persistent", 1), ("deferred", 1)], "style") for _ in range(nproc)]
+    sim.config = {"nproc": nproc, "stale_initial": stale_initial, "deaths": deaths, "rounds": rounds, "forks": forks, "styles": styles}
     sched = T.Scheduler(sim)
     w = World(sim, sched)
     saved = {n: getattr(lockfile, n) for n in ("symlink", "readlink", "rmlink", "kill", "os")}
@@ -130,6 +155,9 @@ def run(sim):
     lockfile.os = _OS(w)
     holders = []
     stats = {"acquired": 0}
+    objs = {}        # pid -> the lock object the process used throughout
+    stale_fails = {} # pid -> consecutive failed attempts against an untouched stale link
+    finished = []    # pids whose process ran to its end without dying
 
     def clause(name):
         # violations that follow a breaker removing a live holder's link are the listed known finding
@@ -148,24 +176,92 @@ def run(sim):
         sim.check(c, w.foreign_unlock is None, wit or "forked-child", lambda: "unlock() in process %d removed the link of live holder %d (unlock %s)" % (w.foreign_unlock + (outcome,)))
         w.alive.discard(cpid)
 
-    def process(pid, nrounds):
-        lk = lockfile.FilesystemLock(NAME)
+    def attempt(pid, fn):
+        """One lock() attempt of process pid (fn calls the real lock(), directly or through a timer); returns its result."""
+        o = w.saw_alive.get(pid)
+        if o is not None and o not in w.alive and w.links.get(NAME) == str(o):
+            # the waiter's previous attempt found the owner running; the owner has died holding the lock since
+            sim.probe("same_object_retry_after_owner_died")
+        gen0, stale0 = w.link_gen, w.stale_owner()
+        w.in_lock.add(pid)
+        w.esrch.pop(pid, None)
+        try:
+            try:
+                got = fn()
+            except OSError as e:
+                c, wit = clause("lock-raised")
+                sim.fail(c, wit or type(e).__name__, "lock() raised %r" % (e,))
+        finally:
+            w.in_lock.discard(pid)
+        # bounded form of "a lock left by a dead process can eventually be acquired" for ONE waiter and ITS lock object:
+        # an attempt during which the link was, from start to end, the same link of the same dead owner (nobody created
+        # or removed it meanwhile) met nothing but a stale lock; STALE_BUDGET such attempts in a row must not all fail
+        if not got and stale0 is not None and w.link_gen == gen0:
+            stale_fails[pid] = stale_fails.get(pid, 0) + 1
+            c, wit = clause("stale-lock-eventually-acquired")
+            sim.check(c, stale_fails[pid] < STALE_BUDGET, wit or "waiter-reusing-its-lock-object",
+                      lambda: "%d lock() attempts in a row by process %d on its lock object returned False although the link named the dead process %d "
+                              "and was not touched by anybody during any of them; alive=%r" % (stale_fails[pid], pid, stale0, sorted(w.alive)))
+        else:
+            stale_fails.pop(pid, None)
+        return got
+
+    def others_done():
+        me = sched.me()
+        return all(t.state == "done" for t in sched.threads if t is not me)
+
+    def wait_persistently(pid, lk, style, clk):
+        """The waiter does not give up: plain lock() polling or deferUntilLocked() on the waiter's clock.  Bounded liveness:
+        once every other process has finished or died nobody alive holds the lock (it is free or stale), so an attempt
+        that STARTS after that point is a lone contender's attempt; LONE_BUDGET of them must be enough."""
+        fired = []
+        lone = 0
+        polls = 0
+        while True:
+            lone += 1 if others_done() else 0
+            if lone == 1:
+                sim.probe("waiter_alone_budget_started")
+            if style == "persistent":
+                got = attempt(pid, lk.lock)
+            elif polls == 0:
+                def begin():
+                    lk.deferUntilLocked().addCallback(fired.append)
+                    return bool(fired)
+                got = attempt(pid, begin)
+            else:
+                def tick():
+                    clk.advance(lk._interval)
+                    return bool(fired)
+                got = attempt(pid, tick)
+            polls += 1
+            if got:
+                return True
+            sim.probe("persistent_waiter_polls_again" if style == "persistent" else "deferred_waiter_polls_again")
+            if lone >= LONE_BUDGET:
+                c, wit = clause("stale-lock-eventually-acquired")
+                sim.fail(c, wit or "waiter-reusing-its-lock-object",
+                         "process %d (%s waiter) made %d lock() attempts on its lock object after every other process had finished or died "
+                         "and none succeeded; links=%r alive=%r" % (pid, style, lone, w.links, sorted(w.alive)))
+            sched.point("retry")
+
+    def process(pid, nrounds, style):
+        clk = None
+        if style == "deferred":
+            clk = SimClock()
+            lk = defer.DeferredFilesystemLock(NAME, scheduler=clk)
+        else:
+            lk = lockfile.FilesystemLock(NAME)
+        objs[pid] = lk
         for r in range(nrounds):
             got = False
-            for attempt in range(6):
-                w.in_lock.add(pid)
-                w.esrch.pop(pid, None)
-                try:
-                    try:
-                        got = lk.lock()
-                    except OSError as e:
-                        c, wit = clause("lock-raised")
-                        sim.fail(c, wit or type(e).__name__, "lock() raised %r" % (e,))
-                finally:
-                    w.in_lock.discard(pid)
-                if got:
-                    break
-                sched.point("retry")
+            if style == "bounded":
+                for _ in range(6):
+                    got = attempt(pid, lk.lock)
+                    if got:
+                        break
+                    sched.point("retry")
+            else:
+                got = wait_persistently(pid, lk, style, clk)
             if not got:
                 continue
             stats["acquired"] += 1
@@ -203,6 +299,7 @@ def run(sim):
                 sim.fail(c, wit or type(e).__name__, "unlock() by the holder %d raised %r" % (pid, e))
             holders.remove(pid)
             sim.event(pid, "RELEASED")
+        finished.append(pid)
 
     try:
         if stale_initial:
@@ -213,41 +310,54 @@ def run(sim):
             w.alive.add(pid)
             w.pid_of["p%d" % pid] = pid
         for i in range(nproc):
-            sched.spawn("p%d" % (100 + i), process, 100 + i, rounds)
+            sched.spawn("p%d" % (100 + i), process, 100 + i, rounds, styles[i])
         try:
             sched.run(max_steps=20000)
         except T.Deadlock as e:
             sim.fail("deadlock", "", str(e))
-        # liveness once faults stop: a fresh contender must get the lock (stale or free) — nobody alive holds it
+        if sched.unfinished():
+            # step budget used up (the statement does not bound how long contenders may keep each other busy): no verdict
+            sim.probe("step_budget_exhausted")
+            sim.nontrivial = False
+            return
+        # liveness once faults stop: nobody alive holds the lock any more, so it is free or stale.
         sim.check("internal-no-holder-left", not holders, "", "holders %r at the end" % (holders,))
-        pid = 500
-        w.alive.add(pid)
-        w.pid_of["p500"] = pid
         res = {}
 
-        def late():
-            lk = lockfile.FilesystemLock(NAME)
-            w.in_lock.add(pid)
-            try:
-                res["locked"] = lk.lock()
-            finally:
-                w.in_lock.discard(pid)
-            if res["locked"]:
-                res["is_locked_seen_by_other"] = True
+        def lone(pid, lk, key):
+            res[key] = attempt(pid, lk.lock)
+            if res[key]:
+                sim.event(pid, "ACQUIRED-ALONE", "clean" if lk.clean else "unclean")
                 lk.unlock()
 
-        sched.spawn("p500", late)
-        try:
-            with sim.guard(*(clause("late-contender-raised"))):
-                sched.run(max_steps=2000)
-        except T.Deadlock as e:
-            sim.fail("deadlock", "late", str(e))
-        c, wit = clause("stale-lock-eventually-acquired")
-        sim.check(c, res.get("locked") is True, wit, "a lone contender could not acquire the lock after all others finished/died: %r; links=%r" % (res, w.links))
+        def lone_turn(tname, pid, lk, key, wit0, what):
+            w.pid_of[tname] = pid
+            sched.spawn(tname, lone, pid, lk, key)
+            try:
+                with sim.guard(*(clause("late-contender-raised"))):
+                    sched.run(max_steps=2000)
+            except T.Deadlock as e:
+                sim.fail("deadlock", "late", str(e))
+            c, wit = clause("stale-lock-eventually-acquired")
+            sim.check(c, res.get(key) is True, wit or wit0, lambda: "%s could not acquire the lock on its own after all others finished/died: %r; links=%r" % (what, res, w.links))
+
+        # (a) the surviving processes come back one at a time, in a tape-chosen order, each with the lock object it has been
+        #     using all along - whatever that object has seen before (owners that were running then, lost races, its own
+        #     earlier tenures) must not keep it from taking a lock that is free or stale now
+        for pid in sim.draw_perm(sorted(finished)):
+            if w.links.get(NAME) is not None:
+                sim.probe("survivor_returns_to_stale_lock")
+            sim.probe("survivor_returns_with_used_object")
+            lone_turn("p%d-again" % pid, pid, objs[pid], "again-%d" % pid, "survivor-reusing-its-lock-object",
+                      "process %d, reusing its lock object," % pid)
+        # (b) a fresh contender with a fresh object
+        pid = 500
+        w.alive.add(pid)
+        lone_turn("p500", pid, lockfile.FilesystemLock(NAME), "locked", "", "a lone fresh contender")
         sim.check("lock-released-leaves-no-link", NAME not in w.links, "", "link left: %r" % (w.links,))
     finally:
         sched.shutdown()
         for n, v in saved.items():
             setattr(lockfile, n, v)
-    sim.state((nproc, stale_initial, deaths, min(w.broke_stale, 2), w.race))
+    sim.state((nproc, stale_initial, deaths, min(w.broke_stale, 2), w.race, tuple(sorted(set(styles)))))
     sim.nontrivial = w.eexist > 0 and sim.faults.get("interleave", 0) > 0
